@@ -74,6 +74,13 @@ def validate (ps : List Rat) (validateSum : Bool) : Except Err Unit :=
   else if validateSum && !(rabs (rsum ps - 1) ≤ epsValidate) then .error .sumNotOne
   else .ok ()
 
+/-- `self._eps_zero = eps_zero if eps_zero else <default>`: `None` and a falsy `0.0` both select the default, which is the constant
+regenerated from the source (`QGen.C16.epsZeroDefault`). -/
+def resolveEpsZero (epsZero : Option Rat) : Rat :=
+  match epsZero with
+  | none => QGen.C16.epsZeroDefault
+  | some e => if e = 0 then QGen.C16.epsZeroDefault else e
+
 /-- `MultinomialDistribution.__init__` (shape given). `epsZero` is the *effective* threshold
 (the harness resolves `eps_zero if eps_zero else 1e-8`). -/
 def ctor (ps : List Rat) (shape : List Nat) (epsZero : Rat) : Except Err Dist := do
@@ -236,6 +243,12 @@ def handle (args : List String) : Option String :=
       let shape ← parseList? parseNat? shape
       let eps ← parseRat? eps
       some (showDist (ctor ps shape eps))
+  | ["ctoro", ps, shape, eps] => do
+      -- the constructor called with the raw `eps_zero` argument ("none" = omitted / None)
+      let ps ← parseList? parseRat? ps
+      let shape ← parseList? parseNat? shape
+      let eps ← if eps = "none" then some none else (parseRat? eps).map some
+      some (showDist (ctor ps shape (resolveEpsZero eps)))
   | ["marg", ps, shape, eps, remain] => do
       let ps ← parseList? parseRat? ps
       let shape ← parseList? parseNat? shape
